@@ -151,23 +151,23 @@ def _solve_one(i):
             s.add(h)
         # cvc5 first: several obligations are out of z3's reach with every seed and take cvc5 a second or two of CPU -- its time
         # limit is WALL time, so under load it needs a generous one
-        r2, d2 = run_cvc5(s.to_smt2(), 120)
+        r2, d2 = run_cvc5(s.to_smt2(), 60)
         if r2 == "unsat":
             return (i, "unsat", time.time() - t0, "cvc5", "second pass", None)
-        notes = ["cvc5(120s): %s %s" % (r2, d2)]
-        for seed in (42, 2, 3, 0, 7, 11):
+        notes = ["cvc5(60s): %s %s" % (r2, d2)]
+        for seed in (42, 2, 3, 0):
             s.set("random_seed", seed)
-            s.set("timeout", 20000)
+            s.set("timeout", 15000)
             try:
                 r = s.check()
             except z3.Z3Exception:
                 r = z3.unknown
             if r != z3.unknown:
                 return (i, str(r), time.time() - t0, "z3", "second pass, seed %d" % seed, None)
-        r2, d2 = run_cvc5(s.to_smt2(), 180)
+        r2, d2 = run_cvc5(s.to_smt2(), 150)
         if r2 == "unsat":
             return (i, "unsat", time.time() - t0, "cvc5", "second pass (second attempt)", None)
-        notes.append("cvc5(180s): %s %s" % (r2, d2))
+        notes.append("cvc5(150s): %s %s" % (r2, d2))
         return (i, "unknown", time.time() - t0, "z3", "timeout in both passes; " + "; ".join(notes), None)
     s = z3.Solver()
     first = min(timeout_ms, 3000) if (ob.expect_sat or _CFG.get("cvc5", True)) else timeout_ms
